@@ -59,28 +59,45 @@ Qed.
 Definition M_of (grams : list gram) : arpa :=
   fun k => match find (fun g => key_eqb (g_key g) k) grams with Some g => Some (g_prob g, g_bo g) | None => None end.
 
-Definition reals_of (grams : list gram) : atable := map (fun g => (g_key g, mk_entry (g_prob g) (g_bo g))) grams.
+(* the real entries, with the entry made of each listed n-gram left open: mk_entry for everything except the <unk> the
+   loader synthesises (whose back-off +0.0 carries the extension bit) *)
+Definition reals_gen (mk : gram -> entry) (grams : list gram) : atable := map (fun g => (g_key g, mk g)) grams.
+Definition mk_std (g : gram) : entry := mk_entry (g_prob g) (g_bo g).
+Definition reals_of (grams : list gram) : atable := reals_gen mk_std grams.
+
+Lemma alookup_reals_gen : forall mk grams k,
+  alookup (reals_gen mk grams) k = option_map mk (find (fun g => key_eqb (g_key g) k) grams).
+Proof.
+  unfold reals_gen. induction grams as [|g gs IH]; intros k; cbn [map alookup find]; [reflexivity|].
+  destruct (key_eqb (g_key g) k); [reflexivity|apply IH].
+Qed.
 
 Lemma alookup_reals : forall grams k,
   alookup (reals_of grams) k = option_map (fun pb => mk_entry (fst pb) (snd pb)) (M_of grams k).
 Proof.
-  unfold M_of, reals_of. induction grams as [|g gs IH]; intros k; cbn [map alookup find]; [reflexivity|].
-  destruct (key_eqb (g_key g) k); [reflexivity|apply IH].
+  intros grams k. unfold reals_of. rewrite alookup_reals_gen. unfold M_of.
+  destruct (find (fun g => key_eqb (g_key g) k) grams); reflexivity.
+Qed.
+
+Lemma is_real_M_gen : forall mk grams k, is_real (reals_gen mk grams) k = true <-> M_of grams k <> None.
+Proof.
+  intros mk grams k. unfold is_real. rewrite alookup_reals_gen. unfold M_of.
+  destruct (find (fun g => key_eqb (g_key g) k) grams); cbn; split; congruence.
 Qed.
 
 Lemma is_real_M : forall grams k, is_real (reals_of grams) k = true <-> M_of grams k <> None.
-Proof.
-  intros grams k. unfold is_real. rewrite alookup_reals. destruct (M_of grams k); cbn; split; congruence.
-Qed.
+Proof. intros. apply is_real_M_gen. Qed.
 
 Section TrieInv.
   Variable N_order : nat.
   Hypothesis Hord : (2 <= N_order)%nat.
   Variable unigrams : list gram.
   Variable higher : list (list gram).
+  Variable mk : gram -> entry.
+  Hypothesis mk_ok : forall g, e_prob (mk g) = g_prob g /\ e_bo (mk g) = g_bo g /\ (e_ext (mk g) = false -> g_bo g = 0).
   Let grams := unigrams ++ concat higher.
   Let M := M_of grams.
-  Let reals := reals_of grams.
+  Let reals := reals_gen mk grams.
   Let real_keys := map fst reals.
 
   (* well-formed input: what ReadARPA + the vocabulary guarantee before the trie is built *)
@@ -89,7 +106,8 @@ Section TrieInv.
 
   Let blanks := dedup (concat (map (fun K => blanks_of reals K) real_keys)) [].
   Let all_targets := concat (map (fun B => targets (based_on reals B (length B - 1)) B) blanks).
-  Let real_contexts := map (fun K => tl K) (filter (fun K => Nat.ltb 1 (length K)) real_keys).
+  Definition trie_real_contexts := map (fun K => tl K) (filter (fun K => Nat.ltb 1 (length K)) real_keys).
+  Let real_contexts := trie_real_contexts.
   Let all_keys := real_keys ++ blanks.
   Let has_child (k : key) := existsb (fun k' => andb (Nat.eqb (length k') (S (length k))) (key_eqb (firstn (length k) k') k)) all_keys.
   Let upgrade (k : key) (e : entry) : entry :=
@@ -100,18 +118,8 @@ Section TrieInv.
     {| e_prob := blank_prob reals B; e_bo := 0;
        e_ext := andb (negb (Nat.eqb (length B) (N_order - 1))) (mem_key B all_targets);
        e_left := has_child B; e_rest := blank_prob reals B |}.
-  Let tbl : atable := map (fun ke => (fst ke, upgrade (fst ke) (snd ke))) reals ++ map (fun B => (B, bentry B)) blanks.
-
-  Lemma load_trie_unfold : forall up,
-    load_trie N_order true up unigrams higher =
-    if negb (forallb (fun c => is_real reals c) real_contexts) then LoadError MissingContext else Loaded tbl.
-  Proof.
-    intros up. unfold load_trie. cbv zeta.
-    replace (map (fun g => (g_key g, mk_entry (g_prob g) (g_bo g))) unigrams ++
-             map (fun g => (g_key g, mk_entry (g_prob g) (g_bo g))) (concat higher)) with reals
-      by (unfold reals, reals_of, grams; rewrite map_app; reflexivity).
-    reflexivity.
-  Qed.
+  Definition trie_tbl : atable := map (fun ke => (fst ke, upgrade (fst ke) (snd ke))) reals ++ map (fun B => (B, bentry B)) blanks.
+  Let tbl := trie_tbl.
 
   Definition T : table := alookup tbl.
 
@@ -120,19 +128,19 @@ Section TrieInv.
                                | None => if mem_key k blanks then Some (bentry k) else None
                                end.
   Proof.
-    intros k. unfold T, tbl. rewrite alookup_app, alookup_map_entries, alookup_map_keys.
+    intros k. unfold T, tbl, trie_tbl. rewrite alookup_app, alookup_map_entries, alookup_map_keys.
     destruct (alookup reals k); reflexivity.
   Qed.
 
   Lemma real_iff : forall k, alookup reals k <> None <-> M k <> None.
-  Proof. intros k. unfold reals, M. rewrite alookup_reals. destruct (M_of grams k); cbn; split; congruence. Qed.
+  Proof. intros k. unfold M. rewrite <- is_real_M_gen with (mk := mk). fold reals. unfold is_real. destruct (alookup reals k); split; congruence. Qed.
 
   Lemma real_key_in : forall k, M k <> None <-> In k real_keys.
   Proof. intros k. rewrite <- real_iff. unfold real_keys. apply alookup_in. Qed.
 
   Lemma real_key_len : forall k, In k real_keys -> (1 <= length k <= N_order)%nat.
   Proof.
-    intros k Hk. unfold real_keys, reals, reals_of in Hk. rewrite map_map in Hk. cbn [fst] in Hk.
+    intros k Hk. unfold real_keys, reals, reals_gen in Hk. rewrite map_map in Hk. cbn [fst] in Hk.
     apply in_map_iff in Hk. destruct Hk as [g [Hg Hin]]. subst. apply wf_len. exact Hin.
   Qed.
 
@@ -146,14 +154,14 @@ Section TrieInv.
       apply in_map_iff in HB. destruct HB as [j [Hj Hin]]. apply in_seq in Hin.
       split.
       + apply negb_true_iff in Hnr. destruct (M B) eqn:EM; [|reflexivity]. exfalso.
-        assert (is_real reals B = true) by (apply is_real_M; fold M; rewrite EM; discriminate). congruence.
+        assert (is_real reals B = true) by (apply (is_real_M_gen mk grams); fold M; rewrite EM; discriminate). congruence.
       + exists K, j. split; [exact HinK|]. split; [lia|congruence].
     - intros [HM [K [j [HK [Hj HB]]]]]. left. exists (blanks_of reals K). split.
       + apply in_map_iff. exists K. split; [reflexivity|exact HK].
       + unfold blanks_of. apply filter_In. split.
         * apply in_map_iff. exists j. split; [congruence|]. apply in_seq. lia.
         * apply negb_true_iff. destruct (is_real reals B) eqn:E; [|reflexivity]. exfalso.
-          apply is_real_M in E. fold M in E. congruence.
+          apply (is_real_M_gen mk grams) in E. fold M in E. congruence.
   Qed.
 
   Lemma blank_len : forall B, In B blanks -> (2 <= length B <= N_order - 1)%nat.
@@ -178,7 +186,7 @@ Section TrieInv.
   (* a prefix of order >= 1 of a stored key is stored (suffix closure with blanks) *)
   Lemma unigram_real : forall K w, In K real_keys -> In w K -> M [w] <> None.
   Proof.
-    intros K w HK Hw. unfold real_keys, reals, reals_of in HK. rewrite map_map in HK. cbn [fst] in HK.
+    intros K w HK Hw. unfold real_keys, reals, reals_gen in HK. rewrite map_map in HK. cbn [fst] in HK.
     apply in_map_iff in HK. destruct HK as [g [Hg Hin]]. subst. apply (wf_words g w Hin Hw).
   Qed.
 
@@ -212,16 +220,33 @@ Section TrieInv.
     assert (In (tl K) real_contexts).
     { unfold real_contexts. apply in_map_iff. exists K. split; [reflexivity|]. apply filter_In. split; [exact HK|].
       apply Nat.ltb_lt. lia. }
-    apply Hctx in H. apply is_real_M in H. exact H.
+    apply Hctx in H. apply (is_real_M_gen mk grams) in H. exact H.
+  Qed.
+
+  Lemma real_entry : forall k e, alookup reals k = Some e ->
+    exists g, find (fun g => key_eqb (g_key g) k) grams = Some g /\ e = mk g /\ M k = Some (g_prob g, g_bo g).
+  Proof.
+    intros k e H. unfold reals in H. rewrite alookup_reals_gen in H.
+    destruct (find (fun g => key_eqb (g_key g) k) grams) as [g|] eqn:Ef; [|discriminate]. injection H as <-.
+    exists g. split; [reflexivity|]. split; [reflexivity|]. unfold M, M_of. rewrite Ef. reflexivity.
   Qed.
 
   Lemma real_bo : forall c, (match alookup reals c with Some e => e_bo e | None => 0 end) = bo_of M c.
   Proof.
-    intros c. unfold reals, bo_of, M. rewrite alookup_reals. destruct (M_of grams c) as [[p q]|]; reflexivity.
+    intros c. destruct (alookup reals c) as [e|] eqn:E.
+    - destruct (real_entry c e E) as [g [_ [-> HM]]]. unfold bo_of. rewrite HM. apply (proj1 (proj2 (mk_ok g))).
+    - unfold bo_of. destruct (M c) eqn:EM; [|reflexivity]. exfalso.
+      assert (alookup reals c <> None) by (apply real_iff; rewrite EM; discriminate). congruence.
   Qed.
 
-  Lemma real_prob : forall k p q, M k = Some (p, q) -> alookup reals k = Some (mk_entry p q).
-  Proof. intros k p q H. unfold reals. rewrite alookup_reals. fold M. rewrite H. reflexivity. Qed.
+  Lemma real_prob : forall k p q, M k = Some (p, q) ->
+    exists e, alookup reals k = Some e /\ e_prob e = p /\ e_bo e = q /\ (e_ext e = false -> q = 0).
+  Proof.
+    intros k p q H. destruct (alookup reals k) as [e|] eqn:E.
+    - destruct (real_entry k e E) as [g [_ [-> HM]]]. rewrite H in HM. injection HM as -> ->.
+      exists (mk g). split; [reflexivity|]. destruct (mk_ok g) as [A [B C]]. split; [exact A|]. split; [exact B|exact C].
+    - exfalso. assert (alookup reals k <> None) by (apply real_iff; rewrite H; discriminate). congruence.
+  Qed.
 
   (* ---- blank probabilities are the back-off recursion -------------------------------------- *)
   Definition addbo (acc : Z) (c : key) : Z := match alookup reals c with Some e => acc + e_bo e | None => acc end.
@@ -254,10 +279,10 @@ Section TrieInv.
   Proof.
     intros B j H1. induction j as [|j IH]; intros Hj; [lia|].
     cbn [based_on]. destruct (is_real reals (firstn (S j) B)) eqn:E.
-    - apply is_real_M in E. fold M in E. cbv zeta. split; [lia|]. split; [exact E|]. intros; lia.
+    - apply (is_real_M_gen mk grams) in E. fold M in E. cbv zeta. split; [lia|]. split; [exact E|]. intros; lia.
     - assert (EM : M (firstn (S j) B) = None).
       { destruct (M (firstn (S j) B)) eqn:EM; [|reflexivity]. exfalso.
-        assert (is_real reals (firstn (S j) B) = true) by (apply is_real_M; fold M; rewrite EM; discriminate). congruence. }
+        assert (is_real reals (firstn (S j) B) = true) by (apply (is_real_M_gen mk grams); fold M; rewrite EM; discriminate). congruence. }
       destruct (Nat.eq_dec j 0) as [->|Hj0]; [congruence|].
       destruct (IH ltac:(lia)) as [Hb [Hr Hm]]. cbv zeta. split; [lia|]. split; [exact Hr|].
       intros i Hi. destruct (Nat.eq_dec i (S j)) as [->|Hne]; [exact EM|apply Hm; lia].
@@ -273,7 +298,7 @@ Section TrieInv.
     destruct (based_on_spec (w :: c) (length c) H1 ltac:(lia)) as [Hb [Hr Hm]].
     set (b := based_on reals (w :: c) (length c)) in *.
     destruct (M (firstn b (w :: c))) as [[p q]|] eqn:EM; [|congruence].
-    rewrite (real_prob _ p q EM). cbn [e_prob mk_entry].
+    destruct (real_prob _ p q EM) as [e0 [Hr0 [Hp0 _]]]. rewrite Hr0, Hp0.
     unfold targets. cbn [tl length].
     assert (Hfb : firstn b (w :: c) = w :: firstn (b - 1) c) by (destruct b; [lia|cbn [firstn]; f_equal; f_equal; lia]).
     rewrite Hfb in EM.
@@ -327,8 +352,8 @@ Section TrieInv.
       destruct (mem_key k blanks); [injection He as <-; reflexivity|discriminate].
     - (* i_prob *)
       intros w c e He. rewrite T_eq in He. destruct (alookup reals (w :: c)) as [e0|] eqn:Er.
-      + injection He as <-. cbn [e_prob upgrade]. unfold reals in Er. rewrite alookup_reals in Er. fold M in Er.
-        destruct (M (w :: c)) as [[p q]|] eqn:EM; [|discriminate]. cbn in Er. injection Er as <-. cbn [e_prob mk_entry].
+      + injection He as <-. cbn [e_prob upgrade]. destruct (real_entry _ _ Er) as [g [_ [-> EM]]].
+        rewrite (proj1 (mk_ok g)).
         destruct (length c) eqn:El; cbn [spec]; rewrite <- ?El, firstn_all, EM; reflexivity.
       + destruct (mem_key (w :: c) blanks) eqn:Em; [|discriminate]. injection He as <-. cbn [e_prob bentry].
         apply blank_prob_spec. apply mem_key_true. exact Em.
@@ -343,9 +368,8 @@ Section TrieInv.
       intros k e He Hext. rewrite T_eq in He. destruct (alookup reals k) as [e0|] eqn:Er.
       + injection He as <-. cbn [e_ext e_bo upgrade] in *.
         apply orb_false_iff in Hext. destruct Hext as [H1 H2]. apply orb_false_iff in H2. destruct H2 as [H2 H3].
-        unfold reals in Er. rewrite alookup_reals in Er. fold M in Er.
-        destruct (M k) as [[p q]|] eqn:EM; [|discriminate]. cbn in Er. injection Er as <-. cbn [e_ext e_bo mk_entry] in *.
-        split; [apply negb_false_iff in H1; apply Z.eqb_eq in H1; exact H1|].
+        destruct (real_entry _ _ Er) as [g [_ [-> EM]]]. destruct (mk_ok g) as [_ [Hgb Hgx]].
+        split; [rewrite Hgb; apply Hgx; exact H1|].
         intros x. destruct (T (x :: k)) eqn:Ex; [|reflexivity]. exfalso.
         assert (Hx : T (x :: k) <> None) by (rewrite Ex; discriminate).
         apply T_some_iff in Hx. destruct Hx as [Hr|Hb].
@@ -385,7 +409,25 @@ Section TrieInv.
   Qed.
 End TrieInv.
 
-(* ---- closed statement ------------------------------------------------------------------------ *)
+(* ---- closed statements ---------------------------------------------------------------------- *)
+Lemma mk_std_ok : forall g, e_prob (mk_std g) = g_prob g /\ e_bo (mk_std g) = g_bo g /\ (e_ext (mk_std g) = false -> g_bo g = 0).
+Proof.
+  intros g. unfold mk_std, mk_entry. cbn [e_prob e_bo e_ext]. split; [reflexivity|]. split; [reflexivity|].
+  intros H. apply negb_false_iff in H. apply Z.eqb_eq in H. exact H.
+Qed.
+
+Lemma load_trie_unfold : forall N up unigrams higher,
+  load_trie N true up unigrams higher =
+  if negb (forallb (fun c => is_real (reals_gen mk_std (unigrams ++ concat higher)) c) (trie_real_contexts unigrams higher mk_std))
+  then LoadError MissingContext else Loaded (trie_tbl N unigrams higher mk_std).
+Proof.
+  intros N up unigrams higher. unfold load_trie, trie_tbl, trie_real_contexts. cbv zeta.
+  replace (map (fun g => (g_key g, mk_entry (g_prob g) (g_bo g))) unigrams ++
+           map (fun g => (g_key g, mk_entry (g_prob g) (g_bo g))) (concat higher)) with (reals_gen mk_std (unigrams ++ concat higher))
+    by (unfold reals_gen, mk_std; rewrite map_app; reflexivity).
+  reflexivity.
+Qed.
+
 Theorem load_trie_inv : forall N unigrams higher unk_prob t, (2 <= N)%nat ->
   (forall g, In g (unigrams ++ concat higher) -> (1 <= length (g_key g) <= N)%nat) ->
   (forall g w, In g (unigrams ++ concat higher) -> In w (g_key g) -> M_of (unigrams ++ concat higher) [w] <> None) ->
@@ -396,5 +438,150 @@ Proof.
   rewrite load_trie_unfold in Hload.
   destruct (forallb _ _) eqn:Hc; cbn [negb] in Hload; [|discriminate].
   injection Hload as <-.
-  eapply trie_table_inv; eassumption.
+  exact (trie_table_inv N HN unigrams higher mk_std mk_std_ok Hlen Hwords Hc).
+Qed.
+
+(* ---- files that do not list <unk>: the loader synthesises it (back-off +0.0: the extension bit is on) ------------- *)
+Lemma TInv_ext_raise : forall N M T T', TInv N T M ->
+  (forall k, match T k, T' k with
+             | Some e, Some e' => e_prob e' = e_prob e /\ e_bo e' = e_bo e /\ e_left e' = e_left e /\ (e_ext e = true -> e_ext e' = true)
+             | None, None => True
+             | _, _ => False
+             end) ->
+  TInv N T' M.
+Proof.
+  intros N M T T' I H.
+  assert (Hp : forall k, T' k <> None <-> T k <> None).
+  { intros k. specialize (H k). destruct (T k), (T' k); split; intros; try congruence; try contradiction. }
+  assert (Hv : forall k e', T' k = Some e' -> exists e, T k = Some e /\ e_prob e' = e_prob e /\ e_bo e' = e_bo e /\ e_left e' = e_left e /\ (e_ext e = true -> e_ext e' = true)).
+  { intros k e' Hk. specialize (H k). rewrite Hk in H. destruct (T k) as [e|]; [|contradiction]. exists e. split; [reflexivity|exact H]. }
+  destruct I. constructor.
+  - intros k x Hk Hx. apply Hp. apply (i_suffix k x Hk). apply Hp. exact Hx.
+  - intros k e' Hk Hl. destruct (Hv k e' Hk) as [e [He [_ [_ [Hle _]]]]]. rewrite Hle. rewrite (i_left k e He Hl).
+    split; intros [x Hx]; exists x; apply Hp; [exact Hx|]. apply Hp. apply Hp. exact Hx.
+  - intros w c e' Hk. destruct (Hv _ e' Hk) as [e [He [Hpr _]]]. rewrite Hpr. apply (i_prob w c e He).
+  - intros k e' Hk. destruct (Hv k e' Hk) as [e [He [_ [Hbo _]]]]. rewrite Hbo. apply (i_bo k e He).
+  - intros k Hk. apply i_sub. destruct (T k) eqn:E; [|reflexivity]. exfalso. assert (T k <> None) by (rewrite E; discriminate). apply Hp in H0. congruence.
+  - intros k e' Hk Hx. destruct (Hv k e' Hk) as [e [He [_ [Hbo [_ Hex]]]]].
+    assert (e_ext e = false) by (destruct (e_ext e); [rewrite Hex in Hx by reflexivity; discriminate|reflexivity]).
+    destruct (i_ext k e He H0) as [B1 B2]. rewrite Hbo. split; [exact B1|].
+    intros x. specialize (B2 x). destruct (T' (x :: k)) eqn:E; [|reflexivity]. exfalso.
+    assert (T' (x :: k) <> None) by (rewrite E; discriminate). apply Hp in H1. congruence.
+  - intros w k Hk Hx. apply Hp. apply (i_ctx w k Hk). apply Hp. exact Hx.
+  - intros k Hk. apply i_len. apply Hp. exact Hk.
+Qed.
+
+Definition unk_gram_t (unk_prob : Z) : gram := {| g_key := [0%N]; g_prob := unk_prob; g_bo := 0; g_pz := false |}.
+Definition mk_unk (g : gram) : entry :=
+  if key_eqb (g_key g) [0%N] then {| e_prob := g_prob g; e_bo := g_bo g; e_ext := true; e_left := false; e_rest := g_prob g |}
+  else mk_std g.
+
+Lemma mk_unk_ok : forall g, e_prob (mk_unk g) = g_prob g /\ e_bo (mk_unk g) = g_bo g /\ (e_ext (mk_unk g) = false -> g_bo g = 0).
+Proof.
+  intros g. unfold mk_unk. destruct (key_eqb (g_key g) [0%N]); [|apply mk_std_ok].
+  cbn [e_prob e_bo e_ext]. split; [reflexivity|]. split; [reflexivity|discriminate].
+Qed.
+
+Definition unk_final (unk_prob : Z) (e : entry) : entry :=
+  {| e_prob := unk_prob; e_bo := 0; e_ext := true; e_left := e_left e; e_rest := unk_prob |}.
+
+(* the body of load_trie as a function of the list of real entries *)
+Definition trie_of_reals (N_order : nat) (reals : atable) : loaded :=
+  let real_keys := map fst reals in
+  let blanks := dedup (concat (map (fun K => blanks_of reals K) real_keys)) [] in
+  let all_targets := concat (map (fun B => targets (based_on reals B (length B - 1)) B) blanks) in
+  let real_contexts := map (fun K => tl K) (filter (fun K => Nat.ltb 1 (length K)) real_keys) in
+  if negb (forallb (fun c => is_real reals c) real_contexts) then LoadError MissingContext
+  else
+    let all_keys := real_keys ++ blanks in
+    let has_child (k : key) := existsb (fun k' => andb (Nat.eqb (length k') (S (length k))) (key_eqb (firstn (length k) k') k)) all_keys in
+    let real_entries := map (fun ke =>
+        let k := fst ke in let e := snd ke in
+        (k, {| e_prob := e_prob e; e_bo := e_bo e;
+               e_ext := orb (e_ext e) (orb (mem_key k real_contexts) (mem_key k all_targets));
+               e_left := has_child k; e_rest := e_prob e |})) reals in
+    let blank_entries := map (fun B =>
+        let p := blank_prob reals B in
+        (B, {| e_prob := p; e_bo := 0;
+               e_ext := andb (negb (Nat.eqb (length B) (N_order - 1))) (mem_key B all_targets);
+               e_left := has_child B; e_rest := p |})) blanks in
+    Loaded (real_entries ++ blank_entries).
+
+Lemma load_trie_nounk_as : forall N up unigrams higher,
+  load_trie N false up unigrams higher =
+  match trie_of_reals N ((([0%N], {| e_prob := up; e_bo := 0; e_ext := true; e_left := false; e_rest := up |})
+                          :: map (fun g => (g_key g, mk_entry (g_prob g) (g_bo g))) unigrams) ++
+                         map (fun g => (g_key g, mk_entry (g_prob g) (g_bo g))) (concat higher)) with
+  | Loaded t => Loaded (aupdate t [0%N] (unk_final up))
+  | err => err
+  end.
+Proof.
+  intros N up unigrams higher. unfold load_trie, trie_of_reals. cbv zeta iota.
+  match goal with |- (if ?c then _ else _) = match (if ?c' then _ else _) with Loaded _ => _ | LoadError _ => _ end =>
+    change c' with c; destruct c end; reflexivity.
+Qed.
+
+Lemma trie_of_reals_gen : forall N unigrams higher mk,
+  trie_of_reals N (reals_gen mk (unigrams ++ concat higher)) =
+  if negb (forallb (fun c => is_real (reals_gen mk (unigrams ++ concat higher)) c) (trie_real_contexts unigrams higher mk))
+  then LoadError MissingContext else Loaded (trie_tbl N unigrams higher mk).
+Proof. intros. reflexivity. Qed.
+
+Lemma load_trie_unfold_nounk : forall N up unigrams higher,
+  (forall g, In g (unigrams ++ concat higher) -> g_key g <> [0%N]) ->
+  load_trie N false up unigrams higher =
+  if negb (forallb (fun c => is_real (reals_gen mk_unk ((unk_gram_t up :: unigrams) ++ concat higher)) c)
+                   (trie_real_contexts (unk_gram_t up :: unigrams) higher mk_unk))
+  then LoadError MissingContext
+  else Loaded (aupdate (trie_tbl N (unk_gram_t up :: unigrams) higher mk_unk) [0%N] (unk_final up)).
+Proof.
+  intros N up unigrams higher Hno. rewrite load_trie_nounk_as.
+  assert (E : (([0%N], {| e_prob := up; e_bo := 0; e_ext := true; e_left := false; e_rest := up |})
+               :: map (fun g => (g_key g, mk_entry (g_prob g) (g_bo g))) unigrams) ++
+              map (fun g => (g_key g, mk_entry (g_prob g) (g_bo g))) (concat higher) =
+              reals_gen mk_unk ((unk_gram_t up :: unigrams) ++ concat higher)).
+  { unfold reals_gen. cbn [app map unk_gram_t g_key]. unfold mk_unk at 1. cbn [g_key g_prob g_bo]. rewrite key_eqb_refl.
+    f_equal. rewrite <- map_app. apply map_ext_in. intros g Hin. unfold mk_unk.
+    assert (Hk : key_eqb (g_key g) [0%N] = false) by (apply key_eqb_false; apply Hno; exact Hin). rewrite Hk. reflexivity. }
+  rewrite E. rewrite trie_of_reals_gen. destruct (negb _); reflexivity.
+Qed.
+
+Lemma alookup_aupdate' : forall t k f k',
+  alookup (aupdate t k f) k' = if key_eqb k k' then option_map f (alookup t k') else alookup t k'.
+Proof.
+  induction t as [|[k0 e0] t IH]; intros k f k'; cbn [aupdate alookup].
+  - destruct (key_eqb k k'); reflexivity.
+  - destruct (key_eqb k0 k) eqn:E0; cbn [alookup].
+    + apply key_eqb_true in E0. subst k0. destruct (key_eqb k k'); reflexivity.
+    + destruct (key_eqb k0 k') eqn:E1.
+      * apply key_eqb_true in E1. subst k0.
+        assert (key_eqb k k' = false) by (apply key_eqb_false; apply key_eqb_false in E0; congruence).
+        rewrite H. reflexivity.
+      * apply IH.
+Qed.
+
+Theorem load_trie_inv_nounk : forall N unigrams higher unk_prob t, (2 <= N)%nat ->
+  let U := unk_gram_t unk_prob :: unigrams in
+  (forall g, In g (unigrams ++ concat higher) -> g_key g <> [0%N]) ->
+  (forall g, In g (U ++ concat higher) -> (1 <= length (g_key g) <= N)%nat) ->
+  (forall g w, In g (U ++ concat higher) -> In w (g_key g) -> M_of (U ++ concat higher) [w] <> None) ->
+  load_trie N false unk_prob unigrams higher = Loaded t ->
+  TInv N (alookup t) (M_of (U ++ concat higher)).
+Proof.
+  intros N unigrams higher up t HN U Hno Hlen Hwords Hload.
+  rewrite (load_trie_unfold_nounk N up unigrams higher Hno) in Hload.
+  destruct (forallb _ _) eqn:Hc; [change (negb true) with false in Hload|change (negb false) with true in Hload; discriminate].
+  remember (aupdate (trie_tbl N (unk_gram_t up :: unigrams) higher mk_unk) [0%N] (unk_final up)) as tf eqn:Etf in Hload.
+  injection Hload as <-.
+  pose proof (trie_table_inv N HN U higher mk_unk mk_unk_ok Hlen Hwords Hc) as I.
+  apply (TInv_ext_raise N _ (alookup (trie_tbl N U higher mk_unk))); [exact I|].
+  intros k. rewrite Etf. rewrite alookup_aupdate'. fold U.
+  destruct (key_eqb [0%N] k) eqn:Ek.
+  - apply key_eqb_true in Ek. subst k. destruct (alookup (trie_tbl N U higher mk_unk) [0%N]) as [e|] eqn:E0; cbn [option_map]; [|exact Logic.I].
+    assert (HM0 : M_of (U ++ concat higher) [0%N] = Some (up, 0)).
+    { unfold U, M_of. cbn [app find unk_gram_t g_key]. rewrite key_eqb_refl. reflexivity. }
+    pose proof (i_prob _ _ _ I 0%N [] e E0) as P0. cbn [spec firstn length] in P0. rewrite HM0 in P0.
+    pose proof (i_bo _ _ _ I [0%N] e E0) as B0. unfold bo_of in B0. rewrite HM0 in B0.
+    cbn [unk_final e_prob e_bo e_left e_ext]. split; [symmetry; exact P0|]. split; [symmetry; exact B0|]. split; reflexivity.
+  - destruct (alookup (trie_tbl N U higher mk_unk) k); [repeat split; auto|exact Logic.I].
 Qed.
